@@ -80,7 +80,7 @@ def group_datafit_task(T, which):
 
 
 for _w in ('QuadraticGroup', 'LogisticGroup'):
-    add_task('C06', f'group:{_w}[2x3,groups=(1,0),(2)]', group_datafit_task, strength='B', which=_w)
+    add_task(['C06', 'C10', 'C15'], f'group:{_w}[2x3,groups=(1,0),(2)]', group_datafit_task, strength='B', which=_w)
 
 
 def multitask_task(T, sparse):
@@ -145,7 +145,7 @@ def multitask_task(T, sparse):
 
 
 add_task(['C06', 'C09'], 'multi_task:QuadraticMultiTask[dense,2x2x2]', multitask_task, strength='B', sparse=False)
-add_task(['C06', 'C09'], 'multi_task:QuadraticMultiTask[sparse,2x2x2]', multitask_task, strength='B', sparse=True)
+add_task(['C06', 'C09', 'C10'], 'multi_task:QuadraticMultiTask[sparse,2x2x2]', multitask_task, strength='B', sparse=True)
 
 
 # ----------------------------------------------------------------------------- Cox
@@ -330,3 +330,97 @@ def replay_group(args, model):
     got, exp = np.asarray(got, dtype=float), np.asarray(exp, dtype=float)
     bad = got.shape != exp.shape or np.any(np.abs(got - exp) > 1e-8 * (1 + np.abs(exp)))
     return dict(confirmed=bool(bad), detail=f'{which}.{method} = {got.tolist()} ; expected {exp.tolist()}', inputs=inputs)
+
+
+# ----------------------------------------------------------------------------- sparse_ops
+
+def columns_slice_task(T):
+    """sparse_columns_slice(cols, data, indptr, indices) denotes X[:, cols]: for every CSC pattern of a 2x3 design (empty columns
+    included) and every ordered pair of distinct columns"""
+    import z3
+    from pv import sym, symrun
+    from pv.sproof import check_contract
+    from .c06 import Env, patterns
+    symrun.install()
+    fn = symrun.get('skglm.utils.sparse_ops', 'sparse_columns_slice')
+    e = Env(2, 3)
+    L = sym.lift
+    import itertools
+    for pat in patterns(2, 3):
+        tag = ''.join(str(b) for r in pat for b in r)
+        for cols in itertools.permutations(range(3), 2):
+            def run(pat=pat, cols=cols):
+                data, indptr, indices = e.csc(pat)
+                return fn(np.array(cols, dtype=np.int32), data, indptr, indices)
+
+            def post(out, pth, pat=pat, cols=cols):
+                d, ip, ix = out
+                # densify the result and compare with the selected columns
+                ok_struct = len(ip) == len(cols) + 1 and int(ip[0]) == 0 and all(int(ip[k]) <= int(ip[k + 1]) for k in range(len(cols))) \
+                    and int(ip[-1]) == len(d) == len(ix)
+                cs = [('valid-csc-structure', [], z3.BoolVal(bool(ok_struct)))]
+                if not ok_struct:
+                    return cs
+                for k, j in enumerate(cols):
+                    dense = {int(ix[t]): d[t] for t in range(int(ip[k]), int(ip[k + 1]))}
+                    for i in range(2):
+                        got = L(dense[i]) if i in dense else z3.RealVal(0)
+                        cs.append((f'[{i},{k}]==X[{i},{j}]', [], got == e.Xz(pat, i, j)))
+                return cs
+            check_contract(T, f'slice[csc={tag},cols={cols[0]}{cols[1]}]', run, [], post, strength='B', safety=False)
+
+
+add_task(['C09', 'C10'], 'sparse_ops:sparse_columns_slice', columns_slice_task, strength='B')
+
+
+def spectral_norm_task(T, iters):
+    """spectral_norm returns sqrt of a Rayleigh quotient v^T X X^T v of a UNIT vector v (hence never above ||X||_2: Rayleigh, trusted
+    lemma); start vector symbolic (np.random.randn replaced by a symbolic non-zero vector for the run), `iters` power iterations.
+    How close it gets to ||X||_2 is convergence of the power method: not decided."""
+    import z3
+    from pv import sym, symrun
+    from pv.sproof import check_contract, zpre
+    from .c06 import Env
+    symrun.install()
+    import skglm.utils.sparse_ops as so
+    e = Env(2, 2)
+    R = sym.SymReal
+    v0 = [z3.Real('v0'), z3.Real('v1')]
+    L = sym.lift
+    pat = [[1, 1], [0, 1]]
+
+    class RNG:
+        @staticmethod
+        def randn(n):
+            return np.array([R(t) for t in v0], dtype=object)
+
+    class NPX:
+        random = RNG
+
+        def __getattr__(self, n):
+            return getattr(so_np, n)
+    so_np = so.np
+
+    def run():
+        so.np = NPX()
+        try:
+            data, indptr, indices = e.csc(pat)
+            return so.spectral_norm(data, indptr, indices, 2, max_iter=iters, tol=0.)
+        finally:
+            so.np = so_np
+    Xz = [[e.Xz(pat, i, k) for k in range(2)] for i in range(2)]
+    # G = X X^T
+    G = [[z3.Sum([Xz[i][k] * Xz[j][k] for k in range(2)]) for j in range(2)] for i in range(2)]
+    u = [z3.Real('u0'), z3.Real('u1')]
+
+    def post(out, pth):
+        r = L(out)
+        # one power iteration from v: the returned value is the Rayleigh quotient of the unit vector v/||v||:
+        #   r^2 * (v.v) == v^T (X X^T) v     (then r <= ||X||_2 by the Rayleigh bound, trusted lemma)
+        vv = v0[0] * v0[0] + v0[1] * v0[1]
+        vGv = z3.Sum([v0[i] * G[i][j] * v0[j] for i in range(2) for j in range(2)])
+        return [('result>=0', [], r >= 0), ('result^2==rayleigh-quotient-of-a-unit-vector', [], r * r * vv == vGv)]
+    check_contract(T, f'spectral_norm[iters={iters}]', run, zpre([z3.Or(v0[0] != 0, v0[1] != 0)]), post, strength='B', safety=False)
+
+
+add_task('C09', 'sparse_ops:spectral_norm[iters=1]', spectral_norm_task, strength='B', iters=1)
